@@ -433,6 +433,92 @@ Proof.
     destruct (fold_left _ ts None) as [dc0|]; [reflexivity|].
     rewrite fold_put_cmd_none. reflexivity.
 Qed.
+
+(* ---------------------------------------------------------------- end to end: the translated body and the world-level model *)
+(* The slots of the two terminals after the four writes of a two-terminal device, read off the world *)
+Lemma put_state_slots (w : world) i o k : (i < List.length w)%nat ->
+  slot_s (put_state w i o) k = (if Nat.eqb k i then wr (slot_s w k) o else slot_s w k) /\ slot_c (put_state w i o) k = slot_c w k
+  /\ List.length (put_state w i o) = List.length w.
+Proof.
+  intros Hi. destruct o as [d|]; cbn [put_state wr].
+  - destruct (get_set_state w i d k Hi) as (A & B & _). rewrite A, B, len_set_state. destruct (Nat.eqb k i); repeat split.
+  - destruct (Nat.eqb k i); repeat split.
+Qed.
+Lemma put_cmd_slots (w : world) i o k : (i < List.length w)%nat ->
+  slot_c (put_cmd w i o) k = (if Nat.eqb k i then wr (slot_c w k) o else slot_c w k) /\ slot_s (put_cmd w i o) k = slot_s w k
+  /\ List.length (put_cmd w i o) = List.length w.
+Proof.
+  intros Hi. destruct o as [d|]; cbn [put_cmd wr].
+  - destruct (get_set_cmd w i d k Hi) as (A & B & _). rewrite A, B, len_set_cmd. destruct (Nat.eqb k i); repeat split.
+  - destruct (Nat.eqb k i); repeat split.
+Qed.
+Lemma two_terminal_slots (w : world) t1 t2 a b x y k : t1 <> t2 -> (t1 < List.length w)%nat -> (t2 < List.length w)%nat ->
+  let w' := put_cmd (put_cmd (put_state (put_state w t1 a) t2 b) t1 x) t2 y in
+  slot_s w' k = (if Nat.eqb k t1 then wr (slot_s w k) a else if Nat.eqb k t2 then wr (slot_s w k) b else slot_s w k) /\
+  slot_c w' k = (if Nat.eqb k t1 then wr (slot_c w k) x else if Nat.eqb k t2 then wr (slot_c w k) y else slot_c w k).
+Proof.
+  intros Hne H1 H2 w'. subst w'.
+  destruct (put_state_slots w t1 a k H1) as (A1 & A2 & A3).
+  assert (H2' : (t2 < List.length (put_state w t1 a))%nat) by (rewrite A3; exact H2).
+  destruct (put_state_slots (put_state w t1 a) t2 b k H2') as (B1 & B2 & B3).
+  assert (H1' : (t1 < List.length (put_state (put_state w t1 a) t2 b))%nat) by (rewrite B3, A3; exact H1).
+  destruct (put_cmd_slots (put_state (put_state w t1 a) t2 b) t1 x k H1') as (C1 & C2 & C3).
+  assert (H2'' : (t2 < List.length (put_cmd (put_state (put_state w t1 a) t2 b) t1 x))%nat) by (rewrite C3, B3, A3; exact H2).
+  destruct (put_cmd_slots (put_cmd (put_state (put_state w t1 a) t2 b) t1 x) t2 y k H2'') as (D1 & D2 & _).
+  split.
+  - rewrite D2, C2, B1, A1. destruct (Nat.eqb_spec k t1) as [E1|N1]; destruct (Nat.eqb_spec k t2) as [E2|N2]; try reflexivity.
+    exfalso. apply Hne. congruence.
+  - rewrite D1, C1, B2, A2. destruct (Nat.eqb_spec k t1) as [E1|N1]; destruct (Nat.eqb_spec k t2) as [E2|N2]; try reflexivity.
+    exfalso. apply Hne. congruence.
+Qed.
+
+(* Invert, end to end: run the body translated from src/devices.rs on the two terminals as they are in the world [w] (their
+   own slots), giving it as reads what the world-level read functions return (by C09Streams.v these are what the translated
+   `Terminal::get` returns on the terminal's view of [w]).  The slots it leaves in the two terminals are exactly the slots of
+   those terminals in [invert_update w t1 t2] - the function C08's / C13's world-level theorems are about - and the world-level
+   function touches no other terminal's slots. *)
+Theorem C08_invert_end_to_end (w : world) t1 t2 : t1 <> t2 -> (t1 < List.length w)%nat -> (t2 < List.length w)%nat ->
+  let w' := invert_update w t1 t2 in
+  run_fn c (g_invert_update c) (m_inv_in (slot_s w t1) (slot_c w t1) (slot_s w t2) (slot_c w t2))
+    [("get:term1:State", m_rd VS (state_get w t1)); ("get:term2:State", m_rd VS (state_get w t2));
+     ("get:term1:Command", m_rd VC (cmd_get w t1)); ("get:term2:Command", m_rd VC (cmd_get w t2))]
+  = Some (Ok (m_inv (slot_s w' t1) (slot_c w' t1) (slot_s w' t2) (slot_c w' t2), MOk MTup0))
+  /\ forall k, k <> t1 -> k <> t2 -> slot_s w' k = slot_s w k /\ slot_c w' k = slot_c w k.
+Proof.
+  intros Hne H1 H2 w'. subst w'. rewrite invert_update_local. cbv zeta.
+  set (st := inv_states (state_get w t1) (state_get w t2)). set (cm := inv_cmds (cmd_get w t1) (cmd_get w t2)).
+  pose proof (fun k => two_terminal_slots w t1 t2 (fst st) (snd st) (fst cm) (snd cm) k Hne H1 H2) as HS. cbv zeta in HS.
+  split.
+  - rewrite C08_gen_invert_update. fold st cm.
+    destruct (HS t1) as (S1 & C1). destruct (HS t2) as (S2 & C2).
+    rewrite S1, C1, S2, C2. rewrite !Nat.eqb_refl.
+    replace (Nat.eqb t2 t1) with false by (symmetry; apply Nat.eqb_neq; intro E; apply Hne; symmetry; exact E).
+    reflexivity.
+  - intros k N1 N2. destruct (HS k) as (Sk & Ck). rewrite Sk, Ck.
+    replace (Nat.eqb k t1) with false by (symmetry; apply Nat.eqb_neq; exact N1).
+    replace (Nat.eqb k t2) with false by (symmetry; apply Nat.eqb_neq; exact N2). split; reflexivity.
+Qed.
+Theorem C08_gear_end_to_end (w : world) t1 t2 r : t1 <> t2 -> (t1 < List.length w)%nat -> (t2 < List.length w)%nat ->
+  let w' := gear_update w t1 t2 r in
+  run_fn c (g_gear_update c) (m_gear_in r (slot_s w t1) (slot_c w t1) (slot_s w t2) (slot_c w t2))
+    [("get:term1:State", m_rd VS (state_get w t1)); ("get:term2:State", m_rd VS (state_get w t2));
+     ("get:term1:Command", m_rd VC (cmd_get w t1)); ("get:term2:Command", m_rd VC (cmd_get w t2))]
+  = Some (Ok (m_gear r (slot_s w' t1) (slot_c w' t1) (slot_s w' t2) (slot_c w' t2), MOk MTup0))
+  /\ forall k, k <> t1 -> k <> t2 -> slot_s w' k = slot_s w k /\ slot_c w' k = slot_c w k.
+Proof.
+  intros Hne H1 H2 w'. subst w'. rewrite gear_update_local. cbv zeta.
+  set (st := gear_states r (state_get w t1) (state_get w t2)). set (cm := gear_cmds r (cmd_get w t1) (cmd_get w t2)).
+  pose proof (fun k => two_terminal_slots w t1 t2 (fst st) (snd st) (fst cm) (snd cm) k Hne H1 H2) as HS. cbv zeta in HS.
+  split.
+  - rewrite C08_gen_gear_update. fold st cm.
+    destruct (HS t1) as (S1 & C1). destruct (HS t2) as (S2 & C2).
+    rewrite S1, C1, S2, C2. rewrite !Nat.eqb_refl.
+    replace (Nat.eqb t2 t1) with false by (symmetry; apply Nat.eqb_neq; intro E; apply Hne; symmetry; exact E).
+    reflexivity.
+  - intros k N1 N2. destruct (HS k) as (Sk & Ck). rewrite Sk, Ck.
+    replace (Nat.eqb k t1) with false by (symmetry; apply Nat.eqb_neq; exact N1).
+    replace (Nat.eqb k t2) with false by (symmetry; apply Nat.eqb_neq; exact N2). split; reflexivity.
+Qed.
 End C08Devices.
 Print Assumptions C08_gen_invert_update.
 Print Assumptions invert_update_local.
@@ -466,3 +552,8 @@ Print Assumptions fold_left_map_l.
 Print Assumptions fold_left_ext_in.
 Print Assumptions fold_put_cmd_none.
 Print Assumptions fold_put_state_none.
+Print Assumptions put_state_slots.
+Print Assumptions put_cmd_slots.
+Print Assumptions two_terminal_slots.
+Print Assumptions C08_invert_end_to_end.
+Print Assumptions C08_gear_end_to_end.
